@@ -28,7 +28,8 @@ def layout_jobs(tier):
         epochs = U.EPOCHS[1:2]
     else:
         seqs2 = U.write_seqs(2, U.L_FULL, U.G_FULL)
-        seqs3 = [s for s in U.write_seqs(4, U.L_RED, U.G_RED) if len(s) >= 3]
+        seqs3 = [s for s in U.write_seqs(3, U.L_RED, U.G_RED) if len(s) == 3]
+        seqs4 = [s for s in U.write_seqs(4, U.L_RED, U.G_RED) if len(s) == 4]
         blocks = U.block_layouts(2) + U.block_layouts(3, lens=(1, 2, 5), gaps=(1, 2, 9), first=(0, 2))
         mixed = [[b, U.shift_op(("w", g, L), U.op_end(b))] for b in blocks[::2] for L in (1, 3, 9) for g in (0, 2)]
         mixed += [[("w", 0, L), U.shift_op(b, L + g)] for b in blocks[::2] for L in (1, 3, 9) for g in (0, 2)]
@@ -55,8 +56,23 @@ def layout_jobs(tier):
                 sel = [starts[ci % len(starts)]]
                 hs = hist_all if mode in ("gapped", "cont") else hist_light
             else:
-                sel = starts
-                hs = hist_all
+                # thorough: every start position of one epoch for the two base modes (other epochs rotate),
+                # a third of them for the compression/checksum variants; depth-4 sequences for the first
+                # two rates in the two base modes at two start positions
+                per_epoch = len(starts) // len(epochs)
+                ep = ci % len(epochs)
+                sel = starts[ep * per_epoch:(ep + 1) * per_epoch]
+                if mode in ("gapped", "cont"):
+                    hs = hist_all
+                else:
+                    sel = sel[::3]
+                    hs = hist_light + [(s, "full") for s in seqs3[::2]]
+                if mode in ("gapped", "cont") and (n, d) in ((10, 3), (200, 3)):
+                    for (k0, label) in sel[1:6:4]:
+                        cfg = _cfg(n, d, fc, sc, k0, mode)
+                        h4 = [(s, "full") for s in seqs4]
+                        for i in range(0, len(h4), 60):
+                            jobs.append(("hist", dict(cfg), h4[i:i + 60], "%d/%d %dms %s %s depth4" % (n, d, fc, mode, label)))
             ci += 1
             for (k0, label) in sel:
                 cfg = _cfg(n, d, fc, sc, k0, mode)
